@@ -78,7 +78,7 @@ def outputs_of(jp, env, q, doc, cap, late_flag=False):
     def one():
         try:
             return tuple(tuple(n.location) for n in c.find(doc))
-        except jp.JSONPathError as err:
+        except Exception as err:  # noqa: BLE001
             return ("raised", type(err).__name__)
 
     results, complete, runs = chooser.explore(jp, one, cap=cap)
@@ -187,8 +187,11 @@ def run(chk: core.Check, tier: str, seed: int) -> None:
             with chooser.patched(jp, chooser.SeededChooser(seed * 1000003 + k * 101 + s)):
                 try:
                     outs.add(tuple(tuple(n.location) for n in c.find(d)))
-                except jp.JSONPathError:
-                    outs.add(("raised",))
+                except Exception as err:  # noqa: BLE001
+                    outs.add(("raised", type(err).__name__))
+        if any(o and o[0] == "raised" for o in outs):
+            chk.violation({"clause": "nondeterministic find raised"}, {"query": q, "doc": d, "outputs": [repr(o) for o in outs][:5]})
+            continue
         try:
             recs.append({"op": "nondet", "q": core.enc_text(q), "doc": core.enc_value(d), "complete": False, "runs": 12,
                          "outputs": [[core.enc_loc(loc) for loc in o] for o in sorted(outs, key=repr)]})
